@@ -158,7 +158,28 @@ def excl_cancelled(tr, path, missing):
     return None
 
 
-def run_cover(check, rule, visitor, targets, exclusions, min_overrides, block_override_ok=None, ignore_missing=None):
+def registering_visitors(prog):
+    """Visit impls whose only override is visit_ident and whose body hands the identifier to
+    IdentProvider::register_variable unconditionally: visiting a sub-tree with one of them makes all
+    its identifiers visible to the collision check."""
+    out = set()
+    by_ty = {}
+    for f in prog.fns:
+        if f.body is None:
+            continue
+        t = f.rec.get("impl_of_trait") or ""
+        if t.split("<")[0] in ("swc_ecma_visit::Visit", "swc_ecma_visit::VisitMut"):
+            by_ty.setdefault(f.rec.get("self_ty", "").split("<")[0], []).append(f)
+    for ty, fs in by_ty.items():
+        if len(fs) == 1 and fs[0].name in ("visit_ident", "visit_mut_ident"):
+            f = fs[0]
+            calls = [n for n in f.nodes() if hir.is_call(n) and hir.callee_name(n) == "register_variable" and not f.conds_at(n)]
+            if len(calls) == 1 and hir.local_of(hir.call_args(calls[0])[1]) and f.bindings()[hir.local_of(hir.call_args(calls[0])[1])[0]]["origin"][:2] == ("param", 1):
+                out.add(ty)
+    return out
+
+
+def run_cover(check, rule, visitor, targets, exclusions, min_overrides, block_override_ok=None, ignore_missing=None, also_vtys=()):
     """TRAV-COVER + TRAV-ROOT over all overrides of `visitor`."""
     prog = check.prog
     graph = AdtGraph(prog.adts)
@@ -200,6 +221,13 @@ def run_cover(check, rule, visitor, targets, exclusions, min_overrides, block_ov
                 check.bad(rule, "%s/%s/unanalysable" % (rule, short(f)), where, "cannot enumerate paths: %s" % "; ".join(p.unknown))
                 continue
             ok, missing = tr.covered(p, root_ap, node_ty, targets, tr.visitor_ty_name())
+            for extra_vty in also_vtys:
+                if ok:
+                    break
+                ok2, missing2 = tr.covered(p, root_ap, node_ty, targets, extra_vty)
+                # union of what either visitor covers: a slot is missing only if both miss it
+                missing = [m for m in missing if m in missing2]
+                ok = not missing
             if not ok and ignore_missing is not None:
                 missing = [m for m in missing if not ignore_missing(m)]
                 ok = not missing
